@@ -229,6 +229,13 @@ def _nonempty(d):
 # ----------------------------------------------------------------------------- C06: merge
 def _chk_merge(args, res, old):
     a = old["a"]
+    if isinstance(res, tuple):
+        # (merge(), merge(bp)) for a required overlap bp > 0: whatever is joined, the covered bases stay the union
+        res, res_bp, bp = res
+        if _nonempty(_covx(res_bp)) != _nonempty(_covx(a)):
+            return "merge(bp=%d) changes the covered bases: %r -> %r" % (bp, spans(a), spans(res_bp))
+        if not is_sorted(res_bp):
+            return "merge(bp=%d) output not sorted: %r" % (bp, spans(res_bp))
     if _nonempty(_covx(res)) != _nonempty(_covx(a)):
         return "merge changes the covered bases: %r -> %r" % (spans(a), spans(res))
     sp = spans(res)
@@ -242,7 +249,9 @@ def _chk_merge(args, res, old):
 
 
 contract("skgenome/gary.py::GenomicArray.merge", params=dict(a=ObjT("GenomicArray")), bounded=True, gen=_gen_pair,
-         call=lambda fn, a: a["a"].merge(), props=("C06", "C12"), checks=[("union_minimal_sorted", _chk_merge)])
+         call=lambda fn, a: (a["a"].merge(), a["a"].merge(bp=1 + (len(a["b"]) % 3)), 1 + (len(a["b"]) % 3)),
+         props=("C06", "C12"), checks=[("union_minimal_sorted", _chk_merge)],
+         notes="merge() and merge(bp) with bp in 1..3 (taken from the size of the second table of the pair)")
 
 
 # ----------------------------------------------------------------------------- C06: flatten
@@ -368,8 +377,10 @@ contract("skgenome/gary.py::GenomicArray.subdivide", params=dict(a=ObjT("Genomic
 
 # ----------------------------------------------------------------------------- C06: resize_ranges
 def _gen_resize(rng, tier, i):
-    """tables x bp in -600..600 x chromosome sizes (or none)"""
+    """tables (also filtered views with a non-default row index) x bp in -600..600 x chromosome sizes (or none)"""
     a = _random_table(rng, nmax=15, big=rng.random() < 0.6, gene=rng.random() < 0.3)
+    if len(a) > 2 and rng.random() < 0.4:
+        a = a[a.data.index % 2 == rng.randint(0, 1)]      # filtered receiver: row labels are not positions
     bp = rng.choice([-600, -50, -3, -2, -1, 0, 1, 2, 10, 500]) if rng.random() < 0.8 else rng.randint(-600, 600)
     sizes = None
     if rng.random() < 0.5 and len(a):
